@@ -166,6 +166,12 @@ func c10Judge(in c10In) (res run.Result) {
 	m := model.CoreRun(in.Prog)
 	g, _, err := compile(in.Text)
 	res.Sample = map[string]any{"text": trunc(in.Text, 400)}
+	if m.AmbiguousSeen && (m.Err != "" || err != nil) {
+		// an index was re-used after a removal: whether a later indexed reference exists
+		// is not well defined (C11 owns indexing)
+		res.Inc("vacuous_error_after_index_reuse")
+		return
+	}
 	if m.Err != "" {
 		res.Inc("model_predicts_error")
 		res.Nontrivial = true
@@ -235,6 +241,14 @@ func c10Judge(in c10In) (res run.Result) {
 		}
 		po := proj.Object(o, proj.Opts{})
 		trigFor := func(attr string) string {
+			if w.Obj.Recreated {
+				parts := strings.Split(w.Key, "\x1f")
+				for i := len(parts); i > 0; i-- {
+					if m.RemovedScopedOut[strings.Join(parts[:i], "\x1f")] {
+						return "redeclared-after-null:connection-in-its-scope-leaves-through-underscore"
+					}
+				}
+			}
 			switch {
 			case attr == "label" && w.Obj.LabelByShorthand && w.Obj.LabelByKeyword:
 				return "label-set-by-shorthand-and-by-keyword"
